@@ -402,7 +402,7 @@ func runC16(r *Run, p *Prog) {
 			}
 		}
 		r.Stat("captured_variables_checked", n)
-		r.Floor("CR", 1)
+		// (no floor: goroutines that receive everything as arguments share no captured variable)
 	})
 }
 
